@@ -9,6 +9,7 @@ import (
 	"time"
 
 	"github.com/tokenized/pkg/wire"
+	"github.com/tokenized/spynode/internal/handlers"
 
 	"github.com/tokenized/spynode/internal/verifrt"
 )
@@ -379,4 +380,59 @@ func VerifHarness_C01_inv_tail() {
 	verifrt.Sig("inv-tail", "stall")
 	verifrt.Assert(w.converged(), "C01.converges.tip-height-equals-peers")
 	verifrt.Reach("C01.inv-tail.done")
+}
+
+// VerifHarness_C01_pending_fork_race: as C01_pending_fork with every body already received, and the
+// block processor taking the fork parent off the queue (NextBlock runs without the block lock)
+// exactly between the headers handler's "is the parent requested?" and its "clear the requests
+// after it" (interleaving point in the handler).  The node still ends on the peer's tip.
+func VerifHarness_C01_pending_fork_race() {
+	ctx := context.Background()
+	k, err := vkNewNode(ctx, nil)
+	verifrt.Assert(err == nil, "C01.kit.node-loads")
+	k.node.state.SetVersionReceived()
+	k.node.state.MarkConnected()
+	tree := vkNewTree(*k.node.blocks.LastHash())
+	tree.add("a1", "", nil)
+	tree.add("a2", "a1", nil)
+	tree.add("a3", "a2", nil)
+	tree.add("a4", "a3", nil)
+	tree.add("a5", "a4", nil)
+	tree.add("b1", "a3", nil)
+	tree.add("b2", "b1", nil)
+	tree.add("b3", "b2", nil)
+	w := &c01World{ctx: ctx, k: k, tree: tree, heard: map[string]bool{}}
+	w.peer = vkNewPeer(tree, "a2")
+	w.settle(4)
+	verifrt.Assert(w.converged() && k.node.state.IsReady(), "C01.pending-fork.settled-in-sync")
+	w.peer.setBest("a5")
+	for w.deliver() { // the announcement and the three bodies; nothing processed yet
+	}
+	verifrt.Assert(k.node.state.TotalBlockRequestCount() == 3, "C01.pending-fork.three-blocks-requested")
+	w.peer.setBest("b3")
+	var popped wire.Block
+	handlers.VkInterleave = func(point string) {
+		if popped == nil {
+			popped = k.node.state.NextBlock() // the processor takes a3, the fork parent
+			verifrt.Reach("C01.pending-fork-race.parent-popped-inside-the-handler")
+		}
+	}
+	w.deliver() // the fork announcement
+	handlers.VkInterleave = nil
+	verifrt.Assert(popped != nil, "C01.pending-fork-race.interleaved")
+	// the processor goes on with the block it took (what processBlocks does after NextBlock)
+	if perr := k.node.ProcessBlock(ctx, popped); perr != nil {
+		k.node.state.SetLastHash(*k.node.blocks.LastHash())
+		k.node.state.ClearInSync()
+	}
+	k.node.state.BlockProcessed()
+	w.pump()
+	before := w.countInSync()
+	w.settle(8)
+	w.checkInSyncNotifications(before)
+	verifrt.Note("closure: node height %d tip %s, peer best %v", k.node.blocks.LastHeight(), tree.byHash[*k.node.blocks.LastHash()], w.peer.best)
+	vkChainLinked(ctx, k.node, "closure")
+	verifrt.Sig("pending-fork-race", "stall")
+	verifrt.Assert(w.converged(), "C01.converges.tip-height-equals-peers")
+	verifrt.Reach("C01.pending-fork-race.done")
 }
